@@ -51,6 +51,19 @@ func (e Engine) Gen(seed uint64, idx int, tier string) interface{} {
 		for i := 0; i < ns; i++ {
 			sc.Sources = append(sc.Sources, gen.GenScope(simrt.NewRand(r.Uint64()), 2+r.Intn(2)).Render())
 		}
+		// literal-heavy modules, a different one per goroutine
+		if r.Chance(1, 2) {
+			for i := 0; i < 2+r.Intn(3); i++ {
+				sc.Sources = append(sc.Sources, gen.LitModule(simrt.NewRand(r.Uint64()), r.Chance(3, 4)))
+			}
+		}
+		// sources the compiler rejects (after parsing): the error objects, with
+		// the file name and line they carry, belong to one compilation each
+		if r.Chance(1, 2) {
+			for i := 0; i < 1+r.Intn(2); i++ {
+				sc.Sources = append(sc.Sources, strings.Repeat("\n", r.Intn(4))+isolation.BadSources[r.Intn(len(isolation.BadSources))])
+			}
+		}
 		return sc
 	}
 	if r.Chance(1, 5) && !harness.Excluded("race-contexts")["repl"] {
@@ -122,6 +135,21 @@ func Cleanup() {
 	}
 }
 
+// excLoc renders the location an error returned by Compile carries.
+func excLoc(err error) string {
+	var e *py.Exception
+	switch x := err.(type) {
+	case *py.ExceptionInfo:
+		e, _ = x.Value.(*py.Exception)
+	case *py.Exception:
+		e = x
+	}
+	if e == nil || e.Dict == nil {
+		return "-"
+	}
+	return fmt.Sprint(e.Dict["filename"], ":", e.Dict["lineno"])
+}
+
 type uiNull struct{}
 
 func (uiNull) SetPrompt(string) {}
@@ -156,25 +184,27 @@ func (e Engine) Exec(sci interface{}, opt harness.ExecOpts) *harness.Outcome {
 	switch sc.Kind {
 	case "compile":
 		dumps := make([]string, sc.N)
+		one := func(g int) string {
+			src := sc.Sources[g%len(sc.Sources)]
+			code, err := py.Compile(src, fmt.Sprintf("<race%d>", g), py.ExecMode, 0, true)
+			if err != nil {
+				return "ERROR:" + pyhost.ExcClass(err) + " " + excLoc(err)
+			}
+			return pyhost.DumpCode(code)
+		}
 		var wg sync.WaitGroup
 		for g := 0; g < sc.N; g++ {
 			g := g
 			wg.Add(1)
 			go func() {
 				defer wg.Done()
-				src := sc.Sources[g%len(sc.Sources)]
-				code, err := py.Compile(src, "<race>", py.ExecMode, 0, true)
-				if err != nil {
-					dumps[g] = "ERROR:" + pyhost.ExcClass(err)
-					return
-				}
-				dumps[g] = pyhost.DumpCode(code)
+				dumps[g] = one(g)
 			}()
 		}
 		wg.Wait()
 		for g := 0; g < sc.N; g++ {
-			if dumps[g] != dumps[g%len(sc.Sources)] {
-				out.Violate("nondeterministic-code", "race|code", "concurrent compile %d of source %d differs from compile %d", g, g%len(sc.Sources), g%len(sc.Sources))
+			if seq := one(g); dumps[g] != seq {
+				out.Violate("nondeterministic-code", "race|code", "concurrent compile %d (of source %d) gave %.200q, the same compilation alone gives %.200q", g, g%len(sc.Sources), dumps[g], seq)
 			}
 		}
 		out.Probe("concurrent_compiles")
